@@ -1006,6 +1006,9 @@ class AtLeast(puan.Proposition):
             ),
             'value': self.value
         }
+        if self.sign != (puan.Sign.POSITIVE if self.value > 0 else puan.Sign.NEGATIVE):
+            # the sign cannot be inferred from the value: keep it
+            d['sign'] = int(self.sign)
         if not self.generated_id:
             d['id'] = self.id
 
@@ -1063,7 +1066,8 @@ class AtLeast(puan.Proposition):
         return AtLeast(
             value=data.get('value', 1),
             propositions=list(map(functools.partial(from_json, class_map=class_map), propositions)),
-            variable=data.get('id', None)
+            variable=data.get('id', None),
+            sign=data.get('sign', None),
         )
 
     @staticmethod
@@ -1512,6 +1516,7 @@ class AtMost(AtLeast):
         """
         d = super().to_json()
         d['value'] = -1*self.value
+        d.pop('sign', None) # an AtMost always has negative sign
         return d
 
 class All(AtLeast):
